@@ -30,6 +30,13 @@ CHECKS['C07'] = {
     'technique': 'TLA+ envelope + mechanism model, TLC refinement check, state-graph edge replay on real objects, TLC trace validation of recorded executions',
 }
 
+CHECKS['C08'] = {
+    'text': 'Arma2Psd.tla gives the exact lag-domain description of (rho/T)|B|^2/|A|^2 for every coefficient vector of the bounded universe (TLC checks lag-domain = direct evaluation at NFFT=4, positivity, symmetry) and each state is replayed into arma2psd at even/odd NFFT; the "scaled exactly once" clause is validated by TLC on recorded traces of all 12 classes (SpectrumTrace.tla); ObsC08.tla holds the per-class sampling rule (divides / unchanged / multiplies) and validates observation events on float data with sampling in (1e-2, 1e5).',
+    'design_ref': 'DESIGN.md 3/C08',
+    'note': 'arma2psd exact only for orders <= 2 with coefficient parts in -1..1 (-2..2 thorough); class-level clauses decided from quantised observation events (1e-6 relative). Trusted: TLC, float evaluation of roots of unity in the harness.',
+    'technique': 'TLA+ exact lag-domain kernel spec + TLC enumeration + replay; TLC trace validation of recorded object traces and observation events',
+}
+
 NOT_APPLICABLE = {
     'C18': 'Slepian tapers: irrational eigenproblem solved in C; no exact finite model exists and quantised re-verification would make Python the oracle (a different technique). DESIGN.md section 4.',
 }
